@@ -216,8 +216,8 @@ fn parse_args_rules(cx: &mut Ctx) {
             });
             ok && t.matches("double_starred=").count() == 2
         }, "a `**` argument (name None) sets double_starred (and nothing resets it)"),
-        ("positional-after-keyword", ex.iter().any(|x| x.result.contains("LexicalErrorType::PositionalArgumentError") && x.result.contains("location:value.start()") && has(x, "name~None") && starred_test(x)), "a positional (non-starred) argument after a keyword argument is rejected"),
-        ("unpack-after-double-star", ex.iter().any(|x| x.result.contains("LexicalErrorType::UnpackedArgumentError") && x.result.contains("location:value.start()") && has(x, "name~None") && x.conds.iter().any(|c| c == "double_starred")), "any positional/starred argument after `**` is rejected"),
+        ("positional-after-keyword", ex.iter().any(|x| x.result.contains("LexicalErrorType::PositionalArgumentError") && x.result.contains("location:value.start()") && (has(x, "name~None") || has(x, "name~_")) && starred_test(x)), "a positional (non-starred) argument after a keyword argument is rejected"),
+        ("unpack-after-double-star", ex.iter().any(|x| x.result.contains("LexicalErrorType::UnpackedArgumentError") && x.result.contains("location:value.start()") && (has(x, "name~None") || has(x, "name~_")) && x.conds.iter().any(|c| c == "double_starred")), "any positional/starred argument after `**` is rejected"),
     ];
     for (key, ok, what) in checks {
         if ok {
@@ -476,7 +476,7 @@ fn lexer_error_sites(cx: &mut Ctx) {
     }
     // default arm: the error is the else-branch of is_emoji_presentation
     let default = m.arms.iter().find(|a| sm::tsc(&a.pat) == "_").map(|a| sm::tsc(&a.body)).unwrap_or_default();
-    if !default.starts_with("{ifis_emoji_presentation(c){") || !default.contains("}else{letc=self.next_char();returnErr(LexicalError{error:LexicalErrorType::UnrecognizedToken{tok:c.unwrap()},location:self.get_pos(),});}") {
+    if !default.trim_start_matches('{').starts_with("ifis_emoji_presentation(c){") || !default.contains("}else{letc=self.next_char();returnErr(LexicalError{error:LexicalErrorType::UnrecognizedToken{tok:c.unwrap()},location:self.get_pos(),});}") {
         cx.fail(rule, &format!("{}/default-arm", rule), &lx.rel, "the default arm does not reject every non-emoji character with UnrecognizedToken");
     }
     // strings
@@ -485,7 +485,7 @@ fn lexer_error_sites(cx: &mut Ctx) {
         Some(f) => {
             let t = sm::tsx(&f.block);
             let eol = t.contains("ifc=='\\n'&&!triple_quoted{returnErr(LexicalError{error:LexicalErrorType::OtherError(\"EOL while scanning string literal\".to_owned(),),location:self.get_pos(),});}");
-            let eof = t.contains("None=>{returnErr(LexicalError{error:iftriple_quoted{LexicalErrorType::Eof}else{LexicalErrorType::StringError},location:self.get_pos(),});}");
+            let eof = t.contains("_=>{returnErr(LexicalError{error:iftriple_quoted{LexicalErrorType::Eof}else{LexicalErrorType::StringError},location:self.get_pos(),});}");
             if eol {
                 cx.ok(rule, "unterminated single-quoted string at end of line => Err");
             } else {
@@ -643,7 +643,7 @@ fn error_kind_mapping(cx: &mut Ctx, g: &Grammar) {
         cx.fail(rule, &format!("{}/extern-indent", rule), "parser/src/python.lalrpop", &format!("the INDENT terminal is named {:?}; parser.rs compares with \"Indent\"", indent_name));
     }
     match p.method("ParseErrorType", "is_indentation_error") {
-        Some(m) if sm::tsx(&m.block) == "{matchself{ParseErrorType::Lexical(LexicalErrorType::IndentationError)=>true,ParseErrorType::UnrecognizedToken(token,expected)=>{*token==Tok::Indent||expected.clone()==Some(\"Indent\".to_owned())}_=>false,}}" => cx.ok(rule, "is_indentation_error: IndentationError | unexpected Indent | expected \"Indent\""),
+        Some(m) if sm::tsx(&m.block) == "{matchself{ParseErrorType::Lexical(LexicalErrorType::IndentationError)=>true,ParseErrorType::UnrecognizedToken(token,expected)=>*token==Tok::Indent||expected.clone()==Some(\"Indent\".to_owned()),_=>false,}}" => cx.ok(rule, "is_indentation_error: IndentationError | unexpected Indent | expected \"Indent\""),
         Some(m) => cx.fail(rule, &format!("{}/is_indentation_error", rule), &p.loc(m), "is_indentation_error does not name exactly the indentation kinds"),
         None => cx.anchor_missing(rule, "is_indentation_error"),
     }
